@@ -41,7 +41,7 @@ def bounds(run):
           "stft": {"size": "1..%d" % run.pick(4, 6), "input_length": "0..%d" % run.pick(7, 10)}}
 
 
-WKINDS = ["none", "list", "tuple", "callable", "generator", "stream"]
+WKINDS = ["none", "list", "tuple", "callable", "generator", "stream", "callable-shared"]
 WVALS = {"ramp": lambda i, n: Q(i + 1, 2), "mixed": lambda i, n: [Q(1, 2), Q(-1), Q(0), Q(2), Q(-3, 4)][i % 5],
          "zeros": lambda i, n: Q(0)}
 CONT = ["list", "tuple", "iter", "deque"]
@@ -108,6 +108,13 @@ def make_window(kind, vals, calls):
     return (v for v in vals)
   if kind == "stream":
     return Stream(list(vals))
+  if kind == "callable-shared":
+    shared = list(vals)
+    def wshared(size):
+      calls.append(size)
+      return shared              # the very same list object at every call (a memoised window)
+    wshared.shared = shared
+    return wshared
   def wfunc(size):
     calls.append(size)
     return list(vals)
@@ -129,7 +136,7 @@ def gen_ola(run):
       for m in range(0, mmax + 1):
         for wk in WKINDS:
           for wv in (["ramp"] if wk == "none" else list(WVALS)):
-            if wk not in ("list", "callable") and wv != "ramp":
+            if wk not in ("list", "callable", "callable-shared") and wv != "ramp":
               continue
             for normalize in (True, False, None):
               for size_given in (True, False):
@@ -173,6 +180,19 @@ def run_ola(case):
                exp[:6], got[:6], nt)
   if wk == "callable" and calls != [size]:
     return bad("ola:window-callable", "a callable window must be asked once for the block size", [size], calls, nt)
+  if wk == "callable-shared":
+    # the window object the callable hands out belongs to the caller: a second overlap-add with
+    # the same callable (other normalisation) must see the same window
+    if w.shared != vals:
+      return bad("ola:window-modified", "overlap_add modified the window list returned by the callable",
+                 vals, w.shared, nt)
+    for norm2 in (False, True):
+      kw2 = dict(kw, normalize=norm2)
+      got2 = list(overlap_add.list((container("list", b) for b in blks), **kw2))
+      exp2 = ref_ola(blks, size, hop, vals, norm2) if (m or size_given) else []
+      if not same_forms(got2, exp2):
+        return bad("ola:window-reuse", "a second overlap-add with the same window callable gives a different "
+                   "result (the window was changed by the first call)", exp2[:6], got2[:6], nt)
   return R(None, nt, (wk, normalize, m > 1 and hop < size))
 
 
